@@ -264,6 +264,20 @@ impl GameEnv {
             }
         }
 
+        // responses overridden AFTER the challenge to what an honest prover for the AGREED values would
+        // send (z = c0 * agreed + commitment scalar), whatever the commitment actually holds: every linear
+        // check of the verifier then passes and only the Schnorr equation of that sub-proof can refuse
+        let mut resp_ok = true;
+        for zs in st["zset"].as_array().cloned().unwrap_or_default() {
+            let which = zs["proof"].as_str().unwrap();
+            let slot = zs["slot"].as_u64().unwrap() as usize;
+            let (z, bytes, tplx, base, csx) = if which == "state" { (&mut z_s, &mut b_s, &sub_tpl_s, base_state, cs) } else { (&mut z_c, &mut b_c, &sub_tpl_c, base_close, ccs) };
+            let want = c0 * base[slot] + csx[slot];
+            if z[slot] != want { resp_ok = false; }
+            z[slot] = want;
+            patch(bytes, tplx, &format!("commitment_proof.message_response_scalars.{}", slot), &sbytes(&want));
+        }
+
         let fin = assemble(&revealed, &b_s, &b_c);
         let (res, ch1) = submit(&fin, &mut rng);
         let accepted = res.is_some();
@@ -306,11 +320,27 @@ impl GameEnv {
                 if close_sig.map(|s| s.verify(&pk, &Message::new(a))).unwrap_or(false) { none_other = false; }
                 if tok_sig.map(|s| s.verify(&pk, &Message::new(b))).unwrap_or(false) { none_other = false; }
             }
-            sigs = json!({"close_sig_on_hidden_close_state": vc, "token_on_hidden_state": vs, "no_single_slot_variation": none_other});
+            // ... nor on a tuple with two slots moved in opposite directions (holds iff the y_i of the key differ)
+            let mut none_pair = true;
+            for i in 0..5 {
+                for j in 0..5 {
+                    if i == j { continue; }
+                    let mut a = final_hidden_c;
+                    a[i] += Scalar::one();
+                    a[j] -= Scalar::one();
+                    let mut b = final_hidden_s;
+                    b[i] += Scalar::one();
+                    b[j] -= Scalar::one();
+                    if close_sig.map(|s| s.verify(&pk, &Message::new(a))).unwrap_or(false) { none_pair = false; }
+                    if tok_sig.map(|s| s.verify(&pk, &Message::new(b))).unwrap_or(false) { none_pair = false; }
+                }
+            }
+            sigs = json!({"close_sig_on_hidden_close_state": vc, "token_on_hidden_state": vs, "no_single_slot_variation": none_other,
+                          "no_two_slot_compensation": none_pair});
         }
         json!({"ev": "game", "proof": "establish", "id": st["id"], "strategy": st["name"], "accepted": accepted, "atoms": atoms,
                "truth": truth_after_sim(truth, &final_hidden_s, &final_hidden_c, &base_state, &base_close),
-               "token_ok": true, "sigs": sigs,
+               "token_ok": true, "resp_ok": resp_ok, "digits_ok": true, "sigs": sigs,
                "challenge_changed_after_late_choice": c1 != c0, "clusters": st["clusters"]})
     }
 }
@@ -395,6 +425,98 @@ impl GameEnv {
 
 
 // ====================================================================== Pay
+
+/// A range constraint assembled digit by digit from the public SignatureProofBuilder: any scalar as a
+/// digit, the published digit signature ("params"), a signature by a foreign key ("otherkey"), or a
+/// pair of COOPERATING forged blinded signatures ("pairA" / "pairB": (H, Z_a), (-H, Z_b) with
+/// Z_a + Z_b = rho * (g^(bf_a - bf_b) * Y^(d_a - d_b)), H = g^rho - each pairing equation is false, their
+/// unweighted product is the identity).  The blinding factors of the two commitments are extracted from
+/// the builders' responses to two challenges (special soundness), so only the public API is used.
+pub struct CustomRange {
+    builders: Vec<SignatureProofBuilder<1>>,
+    forged: Vec<Option<Vec<u8>>>,
+    pub cs: Scalar,
+    pub all_signed: bool,
+}
+
+impl CustomRange {
+    pub fn new(spec: &Value, rtree: &Tree, rpk_obj: &zkchannels_crypto::pointcheval_sanders::PublicKey<1>, rpk: &Pk, rng: &mut StdRng) -> CustomRange {
+        use zkchannels_crypto::pointcheval_sanders::KeyPair;
+        let other = KeyPair::<1>::new(&mut *rng);
+        let spec = spec.as_array().unwrap();
+        assert_eq!(spec.len(), 9, "nine digits");
+        let mut builders = vec![];
+        let mut digits = vec![];
+        let mut kinds = vec![];
+        let mut all_signed = true;
+        let published = |d: u64| -> Signature {
+            let (lo, hi) = rtree.span(&format!("digit_signatures.{}", d)).expect("published digit signature");
+            bincode::deserialize(&rtree.bytes[lo..hi]).unwrap()
+        };
+        for e in spec {
+            let dv = e["d"].as_i64().unwrap();
+            let d = amount_scalar(dv);
+            let kind = e["sig"].as_str().unwrap_or("params").to_string();
+            let sig = match kind.as_str() {
+                "params" if (0..128).contains(&dv) => published(dv as u64),
+                "params" | "otherkey" => Message::new([d]).sign(&mut *rng, &other),
+                _ => published(0),
+            };
+            if kind != "params" || !(0..128).contains(&dv) || !sig.verify(rpk_obj, &Message::new([d])) { all_signed = false; }
+            builders.push(SignatureProofBuilder::<1>::generate_proof_commitments(&mut *rng, Message::new([d]), sig, &[None], rpk_obj));
+            digits.push(d);
+            kinds.push(kind);
+        }
+        let mut cs = Scalar::zero();
+        let mut pow = Scalar::one();
+        for b in &builders {
+            cs += pow * b.conjunction_commitment_scalars()[0];
+            pow *= Scalar::from(128u64);
+        }
+        let mut forged: Vec<Option<Vec<u8>>> = vec![None; 9];
+        let ia = kinds.iter().position(|k| k == "pairA");
+        let ib = kinds.iter().position(|k| k == "pairB");
+        if let (Some(ia), Some(ib)) = (ia, ib) {
+            let ch_a = challenge_from_transcript(b"extract a");
+            let ch_b = challenge_from_transcript(b"extract b");
+            let bf_of = |b: &SignatureProofBuilder<1>| -> Scalar {
+                let za = Tree::of(&b.clone().generate_proof_response(ch_a));
+                let zb = Tree::of(&b.clone().generate_proof_response(ch_b));
+                let f = |t: &Tree| indep::sc(t.bytes_at("commitment_proof.blinding_factor_response_scalar").unwrap()).unwrap();
+                (f(&za) - f(&zb)) * Option::<Scalar>::from((ch_a.to_scalar() - ch_b.to_scalar()).invert()).unwrap()
+            };
+            let (bfa, bfb) = (bf_of(&builders[ia]), bf_of(&builders[ib]));
+            let rho = Scalar::random(&mut *rng);
+            let g = G1Projective::from(rpk.g1);
+            let y = G1Projective::from(rpk.y1s[0]);
+            let h = g * rho;
+            let zsum = (g * (bfa - bfb) + y * (digits[ia] - digits[ib])) * rho;
+            let za = g * Scalar::random(&mut *rng);
+            let zb = zsum - za;
+            let enc = |s1: G1Projective, s2: G1Projective| { let mut v = G1Affine::from(s1).to_compressed().to_vec(); v.extend_from_slice(&G1Affine::from(s2).to_compressed()); v };
+            forged[ia] = Some(enc(h, za));
+            forged[ib] = Some(enc(-h, zb));
+        }
+        CustomRange { builders, forged, cs, all_signed }
+    }
+
+    /// the RangeConstraint wire bytes (nine SignatureProof<1> in sequence) for this challenge
+    pub fn respond(&self, ch: Challenge) -> Vec<u8> {
+        let mut out = vec![];
+        for (b, f) in self.builders.iter().zip(self.forged.iter()) {
+            let p = b.clone().generate_proof_response(ch);
+            let t = Tree::of(&p);
+            let mut bytes = t.bytes.clone();
+            if let Some(f) = f {
+                let (lo, hi) = t.span("blinded_signature").unwrap();
+                assert_eq!(hi - lo, 96);
+                bytes[lo..hi].copy_from_slice(f);
+            }
+            out.extend_from_slice(&bytes);
+        }
+        out
+    }
+}
 
 fn in_range_63(s: &Scalar) -> bool {
     let b = s.to_bytes();
@@ -537,8 +659,14 @@ impl GameEnv {
             None => return json!({"ev": "game", "proof": "pay", "id": st["id"], "error": "range builder refused the value"}),
         };
         let (crb2, mrb2) = mk_ranges(seed_r).unwrap();
-        let cbs = crb.commitment_scalar();
-        let mbs = mrb.commitment_scalar();
+        // digit-level prover (arbitrary digits, arbitrary / cooperating forged digit signatures)
+        let rpk_obj = rparams.public_key().clone();
+        let rtree = Tree::of(&rparams);
+        let custom_cb = if st["digits_cb"].is_array() { Some(CustomRange::new(&st["digits_cb"], &rtree, &rpk_obj, &rpk, &mut seeded(seed_r, 43))) } else { None };
+        let custom_mb = if st["digits_mb"].is_array() { Some(CustomRange::new(&st["digits_mb"], &rtree, &rpk_obj, &rpk, &mut seeded(seed_r, 44))) } else { None };
+        let digits_ok = custom_cb.as_ref().map(|c| c.all_signed).unwrap_or(true) && custom_mb.as_ref().map(|c| c.all_signed).unwrap_or(true);
+        let cbs = custom_cb.as_ref().map(|c| c.cs).unwrap_or_else(|| crb.commitment_scalar());
+        let mbs = custom_mb.as_ref().map(|c| c.cs).unwrap_or_else(|| mrb.commitment_scalar());
         let rlb = CommitmentProofBuilder::<G1Projective, 1>::generate_proof_commitments(&mut rng, Message::new([hrl]), &[None], &revp);
         let rl_cs = rlb.conjunction_commitment_scalars()[0];
         let opt = |name: &str, v: Scalar| if linked(name) { Some(v) } else { None };
@@ -601,7 +729,8 @@ impl GameEnv {
         let draft = assemble(&s_nonce, &s_tag,
             &ser(&ptb.clone().generate_proof_response(dummy)), &ser(&rlb.clone().generate_proof_response(dummy)),
             &ser(&stb.clone().generate_proof_response(dummy)), &ser(&clb.clone().generate_proof_response(dummy)),
-            &ser(&crb2.generate_constraint_response(dummy)), &ser(&mrb2.generate_constraint_response(dummy)));
+            &custom_cb.as_ref().map(|c| c.respond(dummy)).unwrap_or_else(|| ser(&crb2.generate_constraint_response(dummy))),
+            &custom_mb.as_ref().map(|c| c.respond(dummy)).unwrap_or_else(|| ser(&mrb2.generate_constraint_response(dummy))));
         let (_, ch0) = submit(&draft, &mut rng);
         let (tr0, c0) = match ch0 {
             Some(x) => x,
@@ -616,8 +745,8 @@ impl GameEnv {
         let p_rl = rlb.generate_proof_response(chal0);
         let p_st = stb.generate_proof_response(chal0);
         let p_cl = clb.generate_proof_response(chal0);
-        let p_cr = crb.generate_constraint_response(chal0);
-        let p_mr = mrb.generate_constraint_response(chal0);
+        let b_cr = custom_cb.as_ref().map(|c| c.respond(chal0)).unwrap_or_else(|| ser(&crb.generate_constraint_response(chal0)));
+        let b_mr = custom_mb.as_ref().map(|c| c.respond(chal0)).unwrap_or_else(|| ser(&mrb.generate_constraint_response(chal0)));
         let z_pt = *p_pt.conjunction_response_scalars();
         let z_rl = *p_rl.conjunction_response_scalars();
         let mut z_st = *p_st.conjunction_response_scalars();
@@ -681,7 +810,24 @@ impl GameEnv {
             }
         }
 
-        let fin = assemble(&s_nonce, &s_tag, &b_pt, &b_rl, &b_st, &b_cl, &ser(&p_cr), &ser(&p_mr));
+        // responses overridden after the challenge to those of an honest prover for the AGREED values
+        let mut resp_ok = true;
+        for zs in st["zset"].as_array().cloned().unwrap_or_default() {
+            let which = zs["proof"].as_str().unwrap();
+            let slot = zs["slot"].as_u64().unwrap() as usize;
+            let (want, path) = match which {
+                "st" => (c0 * base_st[slot] + st_cs[slot], format!("commitment_proof.message_response_scalars.{}", slot)),
+                "cl" => (c0 * base_cl[slot] + cl_cs[slot], format!("commitment_proof.message_response_scalars.{}", slot)),
+                _ => (c0 * info.old[2] + rl_cs, "message_response_scalars.0".to_string()),
+            };
+            match which {
+                "st" => { if z_st[slot] != want { resp_ok = false; } z_st[slot] = want; patch(&mut b_st, &t_st, &path, &sbytes(&want)); }
+                "cl" => { if z_cl[slot] != want { resp_ok = false; } z_cl[slot] = want; patch(&mut b_cl, &t_cl, &path, &sbytes(&want)); }
+                _ => { if z_rl[0] != want { resp_ok = false; } patch(&mut b_rl, &t_rl, &path, &sbytes(&want)); }
+            }
+        }
+
+        let fin = assemble(&s_nonce, &s_tag, &b_pt, &b_rl, &b_st, &b_cl, &b_cr, &b_mr);
         let (res, ch1) = submit(&fin, &mut rng);
         let accepted = res.is_some();
         let (tr1, c1) = ch1.unwrap_or((vec![], Scalar::zero()));
@@ -720,13 +866,23 @@ impl GameEnv {
                 }
                 Err(_) => false,
             };
-            sigs = json!({"close_sig_on_hidden_close_state": vc, "no_single_slot_variation": none_other,
+            let mut none_pair = true;
+            for i in 0..5 {
+                for j in 0..5 {
+                    if i == j { continue; }
+                    let mut a = fin_cl;
+                    a[i] += Scalar::one();
+                    a[j] -= Scalar::one();
+                    if close_sig.map(|s| s.verify(&pk, &Message::new(a))).unwrap_or(false) { none_pair = false; }
+                }
+            }
+            sigs = json!({"close_sig_on_hidden_close_state": vc, "no_single_slot_variation": none_other, "no_two_slot_compensation": none_pair,
                           "old_pair_completes_iff_committed": completes == (fin_rl == info.old[2])});
         }
         let _ = (&mut z_st, &mut z_cl, z_rl, cfg);
         json!({"ev": "game", "proof": "pay", "id": st["id"], "strategy": st["name"], "accepted": accepted, "atoms": atoms,
-               "truth": truth, "token_ok": token_ok, "sigs": sigs, "challenge_changed_after_late_choice": c1 != c0,
-               "clusters": st["clusters"]})
+               "truth": truth, "token_ok": token_ok, "resp_ok": resp_ok, "digits_ok": digits_ok, "sigs": sigs,
+               "challenge_changed_after_late_choice": c1 != c0, "clusters": st["clusters"]})
     }
 
     /// A pay proof around the all-identity blinded signature.  Such a proof cannot arrive as bytes
@@ -781,7 +937,7 @@ impl GameEnv {
         let (tr1, c1) = last_challenge().unwrap_or((vec![], Scalar::zero()));
         let atoms = pay_atoms(&ft, m, &c1, &nonce_s, &amount_scalar(amount), &tr1);
         json!({"ev": "game", "proof": "pay", "id": st["id"], "strategy": st["name"], "accepted": accepted, "atoms": atoms,
-               "truth": token_ok, "token_ok": false, "sigs": {}, "zero_draw_index": k,
+               "truth": token_ok, "token_ok": false, "resp_ok": true, "digits_ok": true, "sigs": {}, "zero_draw_index": k,
                "challenge_changed_after_late_choice": false, "clusters": st["clusters"]})
     }
 
